@@ -30,10 +30,10 @@ CHECKS = {
    text="All answer sequences with <= D deviations where every ACK kind (full, partial, duplicate, stale, future) arrives with delay 0, T/2 or T-1ns; monitors W1-W4 on bursts and virtual time; windowsize 1,2,3,4,8,65534,65535 (incl. a completely filled 65535-block window). Through the real Server: a duplicate ACK 0.7 s before a negotiated 6 s interval elapses triggers nothing (wall clock).",
    note="Trusted: virtual clock hook (the run fails as machinery error if the hook is bypassed).", design="§6 C08"),
  "C09": dict(engine="E2 loopback", level="model_checking", technique="exhaustive enumeration of option lists (ordered selections x boundary values x casing x unknown/duplicate options) against the real Server with a reference negotiator and transfer-shape oracle",
-   text="All ordered selections of the four options with boundary values (thorough: full cross product), x RRQ/WRQ x single/multi port x file sizes, each accepted request carried to its end with the acknowledged values; wall-clock clauses (retransmission interval for 1 s and for 6 s, above the default) measured with asymmetric tolerance; sparse files of 2^32 bytes and more (tsize), a symbolic link, upper/mixed-case mode spellings.",
+   text="All ordered selections of the four options with boundary values (thorough: full cross product), x RRQ/WRQ x single/multi port x file sizes, each accepted request carried to its end with the acknowledged values; wall-clock clauses (retransmission interval for 1 s and for 6 s, above the default) measured with asymmetric tolerance; sparse files of 2^32 bytes and more (tsize), a symbolic link, upper/mixed-case mode spellings, near-miss option names, a tsize history; windows large in blocks or bytes (E1 cells with W5/W6, and a 39 MB window through the real Server).",
    note="Trusted: reference negotiator; the interval clause is a measurement, not an enumeration.", design="§6 C09"),
  "C12": dict(engine="E2 loopback", level="model_checking", technique="exhaustive enumeration of all interleavings of K client scripts' datagrams (one datagram at a time) plus an intruder datagram at every position, against the real Server",
-   text="All interleavings of 2 scripts (10 pairs) and 3 short scripts, in both port modes, with an intruder datagram of 8 kinds to 2 targets (single-port: also from another loopback address with the victim's port number) at every position; a request that blocks on a named pipe at every position of another download; the listener on the dual-stack address with IPv4 clients; per-client byte identity, source-port discipline, ERROR to the intruder.",
+   text="All interleavings of 2 scripts (10 pairs) and 3 short scripts, in both port modes, with an intruder datagram of 8 kinds to 2 targets (single-port: also from another loopback address with the victim's port number) at every position; a request that blocks on a named pipe at every position of another download; the listener on the dual-stack address with IPv4 clients; a download aborted by its own client; one transfer held open while 1500 (thorough 70000) other endpoints come and go; per-client byte identity, source-port discipline, ERROR to the intruder.",
    note="Assumes the driver's one-datagram-at-a-time regime; the server's internal thread schedule is the OS's (overlapped pairs in the thorough tier).", design="§6 C12"),
  "C13": dict(engine="E1 simnet + E2 loopback", level="fault_enumeration", technique="exhaustive enumeration of abort points x causes (ERROR, silence, RLIMIT_FSIZE write error) and of all interleavings of a stale and a fresh real Worker on one path",
    text="Every abort point of uploads of 1..5 blocks x cause x clean/keep x windowsize; all interleavings of two real Workers on one path; the same history through the real Server; single failing uploads through the real Server onto fresh and existing names.",
@@ -57,7 +57,7 @@ CHECKS = {
    text="Every argument vector of <=3 (thorough <=5, 6 on a sub-alphabet) flag units over ~35 units goes through the real Config::new / ClientConfig::new and is compared with a reference parser written from the statement; permutations of non-repeating vectors are compared with each other.",
    note="Trusted: the reference parser; -h/--help excluded (process::exit).", design="§6 C17"),
  "C18": dict(engine="E3 seq", level="model_checking", technique="exhaustive enumeration of operation sequences up to a depth on the real Window, against a VecDeque reference model",
-   text="All operation sequences of length 5 (thorough 7) over (size, chunk, file length) in {0..3}x{1..3}x{0..7} in source, sink and mixed regimes, plus window sizes 65534/65535, are applied to the real Window and every observer is compared with a reference queue after each operation; whole files of 8191..200000 bytes (more than 65536 chunks) and one sparse file beyond 4 GiB streamed through fill/remove and 1023..65535 pieces buffered before one empty().",
+   text="All operation sequences of length 5 (thorough 7) over (size, chunk, file length) in {0..3}x{1..3}x{0..7} in source, sink and mixed regimes, plus window sizes 65534/65535, are applied to the real Window and every observer is compared with a reference queue after each operation; whole files of 8191..200000 bytes (more than 65536 chunks) and one sparse file beyond 4 GiB streamed through fill/remove, capacity for size x chunk up to 4.3e9 bytes and 1023..65535 pieces buffered before one empty().",
    note="Trusted: the reference queue; regular files only.", design="§6 C18"),
 }
 
